@@ -89,8 +89,8 @@ CONFIGS = {
                   kws=[[]], fam=["plain", "collide", "suffix", "prefix"]),
     "hist2x": dict(kinds=["ip", "fqdn", "dom", "kw", "text"], nip=1, ndom=2, nmac=1, tok=2, lines=2, specs=2, tot=2,
                    kws=[[1]], noobf=[[], ["ip", "hostname"]], fam=["plain"], sysdom=[True, False]),
-    "hist3ip": dict(kinds=["ip"], nip=3, tok=3, lines=3, specs=3, tot=3, kws=[[]], fam=["plain", "collide", "prefix"]),
-    "hist3host": dict(kinds=["short", "fqdn", "dom"], ndom=3, tok=2, lines=3, specs=3, tot=3, kws=[[]],
+    "hist3ip": dict(kinds=["ip"], nip=3, tok=2, lines=3, specs=3, tot=3, kws=[[]], fam=["plain", "collide", "prefix"]),
+    "hist3host": dict(kinds=["short", "fqdn", "dom"], ndom=2, tok=2, lines=3, specs=3, tot=3, kws=[[]],
                       fam=["plain", "collide", "suffix"]),
     "hist3mac": dict(kinds=["mac", "ip"], nmac=2, nip=1, tok=2, lines=3, specs=3, tot=3, kws=[[]],
                      fam=["plain", "collide"]),
@@ -101,6 +101,9 @@ CONFIGS = {
                     fam=["kwdom", "pwip"], runs=2),
     "runs4": dict(kinds=["text", "pat", "fqdn", "pw"], tok=1, lines=4, blank=True, pats=[[1]],
                   nored=[False, True], fam=["plain", "kwdom", "pwip"], runs=2),
+    # two specs with different per-spec exemptions through one cleaner: the order must not change between specs
+    "runs2sp": dict(kinds=["text", "kw", "fqdn", "pw", "ip"], tok=1, lines=1, specs=2, tot=2,
+                    noobf=[[], ["mac"], ["ip", "keyword"]], fam=["plain", "kwdom"], runs=2),
     # every order, two runs: OneOrder / Deterministic on the model
     "ordruns": dict(kinds=["kw", "fqdn", "pw", "pat"], tok=1, lines=1, blank=True, pats=[[1]],
                     fam=["plain", "kwdom", "pwip"], runs=2, allorders=True),
@@ -113,12 +116,12 @@ PLAN = {
     "C08": dict(quick=dict(emit=["tok1", "switch1", "pair", "pairx"], model=["orders"], cap=10000, nconc=3,
                            paths=["content"]),
                 thorough=dict(emit=["tok1", "switch1", "pair", "pairx", "triple", "triplep"], model=["orders"],
-                              cap=60000, nconc=10, paths=["content", "content", "file", "provider", "fileprovider"])),
+                              cap=30000, nconc=6, paths=["content", "content", "file", "provider", "fileprovider"])),
     "C09": dict(quick=dict(emit=["hist2", "hist2x"], model=[], cap=9000, nconc=2, paths=["content"]),
-                thorough=dict(emit=["hist2", "hist2x", "hist3ip", "hist3host", "hist3mac"], model=[], cap=60000,
-                              nconc=4, paths=["content", "content", "provider", "file"])),
-    "C10": dict(quick=dict(emit=["runs3"], model=["ordruns"], cap=700, seeds=16),
-                thorough=dict(emit=["runs3", "runs2x2", "runs4"], model=["ordruns"], cap=2500, seeds=64)),
+                thorough=dict(emit=["hist2", "hist2x", "hist3ip", "hist3host", "hist3mac"], model=[], cap=40000,
+                              nconc=3, paths=["content", "content", "provider", "file"])),
+    "C10": dict(quick=dict(emit=["runs3", "runs2sp"], model=["ordruns"], cap=700, seeds=16),
+                thorough=dict(emit=["runs3", "runs2sp", "runs2x2", "runs4"], model=["ordruns"], cap=2000, seeds=64)),
 }
 
 ASSUMPTIONS = [
@@ -178,6 +181,11 @@ def run_models(prop, tier, plan):
         name, mod, p, emit = job
         r = lib.run_tlc(mod, p, workers=max(2, lib.NCPU // 3), tag="cl-" + name, timeout=2400, raw_cases=True,
                         coverage=(tier == "thorough" and not emit))
+        if r.coverage and r.ok:
+            need = ["NewCleaner", "BeginSpec", "CleanLine", "EndSpec", "Report"] + (["Rerun"] if CONFIGS[name].get("runs", 1) > 1 else [])
+            dead = [a for a in need if not r.coverage.get(a)]
+            if dead:
+                raise lib.MachineryError("vacuity: action(s) %s never taken in model %s" % (dead, name))
         if name == "freeorder":
             # the demonstration must FAIL: order-freedom is observable on the model
             if r.violation != "Deterministic":
@@ -195,9 +203,13 @@ def run_models(prop, tier, plan):
     return models, raw
 
 
+ALWAYS = ("tok1",)      # replayed completely: every kind x every pair of delimiter classes is hit in every run
+
+
 def sample_cases(raw, cap, rng):
     emitted = len(raw)
     rng.shuffle(raw)
+    raw.sort(key=lambda x: x[0] not in ALWAYS)        # stable: the ALWAYS configurations first
     cases = []
     for name, i, line in raw[:cap]:
         c = lib.parse_case(line)
@@ -226,6 +238,8 @@ def selftest_traces(traces, prop):
     for t in traces:
         if len(done) >= 4:
             break
+        if t["cf"]["fam"] != "plain":
+            continue
         if t["mode"] == "lines":
             for i, e in enumerate(t["events"]):
                 if e["ev"] == "line" and "leak" not in done:
@@ -340,12 +354,16 @@ def run(prop, tier):
     st = selftest_traces(traces, prop)
     val = lib.validate_traces("CleanerTrace", "CleanerTrace.cfg", traces + st)
     rej = dict((r["id"], r) for r in val["rejected"])
+    nst = 0
     for t in st:
+        if t["id"].split(":", 2)[2] in rej:
+            continue        # the uncorrupted trace is itself rejected (a finding): not a usable base
+        nst += 1
         r = rej.get(t["id"])
         if r is None or not r["clause"].startswith(t["expect"]):
             raise lib.MachineryError("self-test: corrupted trace %s should be rejected by %s, got %s"
                                      % (t["id"], t["expect"], r and r["clause"]))
-    if not st:
+    if not nst and not [r for r in val["rejected"] if not r["id"].startswith("selftest:")]:
         raise lib.MachineryError("self-test: no trace could be corrupted (nothing observed?)")
     val["rejected"] = [r for r in val["rejected"] if not r["id"].startswith("selftest:")]
     val["traces"] -= len(st)
@@ -378,6 +396,9 @@ def run(prop, tier):
 
     extra["kind_x_delimiter_classes_replayed"] = len(set((t["k"], t["l"], t["r"]) for c in cases for sp in c["content"]
                                                        for ln in sp["lines"] for t in ln))
+    if prop == "C08" and extra["kind_x_delimiter_classes_replayed"] < len(ALLK) * len(ALLD) ** 2:
+        raise lib.MachineryError("vacuity: only %d of %d kind x delimiter-class combinations were replayed"
+                                 % (extra["kind_x_delimiter_classes_replayed"], len(ALLK) * len(ALLD) ** 2))
     nt = len(set(ckey(c) for c in cases if nontrivial(c, prop)))
     samples = [dict(case=dict(cf=c["cf"], content=c["content"])) for c in cases[:2]]
     for t in traces[:2]:
